@@ -135,8 +135,9 @@ def corpus_shards(tier):
 def shards(tier):
     out = [dict(s, kind='sigma') for s in strings.shards(tier)]
     out += corpus_shards(tier)
-    for a in range(8):
-        for b in range(8):
+    nk = len(strings.nest_kinds(gram.Names(seed())))
+    for a in range(nk):
+        for b in range(nk):
             out.append({'kind': 'nest', 'a': a, 'b': b, 'step': 5 if tier == 'quick' else 1})
     return out
 
@@ -204,7 +205,7 @@ def coverage(tier, total):
     return {
         'rule': 'all strings of <= n symbols over the token-kind alphabets (%s), NUL/DEL/CR included; every prefix, '
                 'single-character deletion, adjacent transposition and insertion of one of %d hostile characters at every '
-                'position of every L_wf document of the small layers and of tests/samples; 40-deep nests of 8 container '
+                'position of every L_wf document of the small layers and of tests/samples; 40-deep nests of 10 container '
                 'kinds (%s), closed and cut at every token boundary; each x tolerance 0/1.  distinct = distinct '
                 '(input, tolerance, outcome class)' % (
                     ', '.join('%s n<=%d (%d symbols)' % (a, n, len(strings.sigma(a))) for a, n in strings.PLAN[tier]),
